@@ -1,7 +1,9 @@
 package c10
 
 // Mutation symbols of DESIGN.md C10: inserted at every character boundary.
-var mutationSymbols = []string{"(?=a)", "(?!a)", `\1`, `\2`, "(", ")", "[", "]", "{", "}", "*", "+", "?", `\`, `\8`, `\c`, `\u12`, `\x1`, "|", "/"}
+var mutationSymbols = []string{"(?=a)", "(?!a)", `\1`, `\2`, "(", ")", "[", "]", "{", "}", "*", "+", "?", `\`, `\8`, `\c`, `\u12`, `\x1`, "|", "/",
+	// round 6: RE2-only class syntax, multi-digit octal escapes, RE2 repeat limit
+	"[:alpha:]", "[[:digit:]]", `\12`, `\101`, `\1011`, "{1001}"}
 
 // MutatedPatterns returns every single-symbol insertion into every base
 // pattern, in generation order, without duplicates and without results that
